@@ -228,6 +228,20 @@ Theorem C18_source_reverse :
 Proof. exact source_reverse. Qed.
 Print Assumptions C18_source_reverse.
 
+(** Entering a span by polling an `Instrumented` future (tracing's or tracing-futures'), by dropping one, or through
+    `in_scope` is the same pair of lifecycle steps: at any point of any history without an install each poll emits the
+    `->` and the `<-` record, the drop `->`, `<-`, `--`. *)
+Theorem C18_poll_emits : forall cfg before s after, accepting cfg ->
+  ~ In OpInstall (before ++ poll_ops s ++ idrop_ops s ++ after) ->
+  Forall2 step_spec (before ++ [OpEnter s; OpExit s] ++ [OpEnter s; OpExit s; OpDrop s] ++ after)
+          (snd (run cfg false (before ++ poll_ops s ++ idrop_ops s ++ after))).
+Proof. exact poll_emits. Qed.
+Print Assumptions C18_poll_emits.
+
+Theorem C18_source_entries : gen_instrumented_poll_enters = true /\ gen_instrumented_drop_enters = true.
+Proof. exact source_entries. Qed.
+Print Assumptions C18_source_entries.
+
 Theorem C18_translator_recognised_everything : gen_lb_unrecognised = [].
 Proof. exact nothing_unrecognised. Qed.
 Print Assumptions C18_translator_recognised_everything.
